@@ -24,7 +24,9 @@ class C08(Prop):
                 "NV.C08.lookup_unique_live_reachable", "NV.C08.inventories_forest", "NV.C08.destructed_never_visible",
                 "NV.C08.destructed_never_called", "NV.C08.destructed_never_moved_into",
                 "NV.C08.remove_hash_precondition", "NV.C08.remove_hash_absent_drops_chain", "NV.C08.unlink_preserves",
-                "NV.C08.no_dangling", "NV.C08.superWalk_clear", "NV.C08.acyclic_redirect", "NV.C08.init_inv"]
+                "NV.C08.no_dangling", "NV.C08.task_no_crash", "NV.C08.no_crash", "NV.C08.init_only_adjacent",
+                "NV.C08.command_giver_valid", "NV.C08.command_target_live", "NV.C08.destructed_drops_sentences",
+                "NV.C08.exec_good", "NV.C08.superWalk_clear", "NV.C08.acyclic_redirect", "NV.C08.init_inv"]
     consts = [("oDestructed", "O_DESTRUCTED"), ("oEnableCommands", "O_ENABLE_COMMANDS"), ("oClone", "O_CLONE")]
     const_headers = ["lpc/object.h"]
     quick_n = 700
@@ -45,8 +47,8 @@ class C08(Prop):
                   "the Lean specification oracle judges every implementation trace")
     level_note = ("trusted: Lean kernel; extract.py + props/c08.py gen_extra (regex transcription of T[], ObjHash, "
                   "hash_living_name); the correspondence harness (differential, only the generated histories); hooks are oracle "
-                  "scripts; the theorems do not include crash-freedom of the pointer walks (modelled as explicit outcomes, "
-                  "never observed) nor the oracle-level top theorem judge(model trace) = []")
+                  "scripts; crash freedom is proved (no_crash); termination of the super walk is not ("
+                  "never observed to be `hang`) nor the string-level top theorem judge(model trace) = []")
     rule = ("cases = corpus + known-finding inputs + boundary list (failing moves, self-destructing create, destruct during the "
             "init fan-out, move_or_destruct hooks that move / destruct / re-enter, living names, reference read-back, a 220 "
             "object population) + seeded random histories of load/clone/move/destruct/enable_commands/set_living_name/"
@@ -54,11 +56,12 @@ class C08(Prop):
             "and (every 40th case) 100..260 objects on a 16 bucket name table; walker after every step, snapshot + LPC probe "
             "after every step (small) or periodically (large); a case is non-trivial when its trace has >= 2 lines; "
             "distinct = distinct canonical implementation trace")
-    not_covered = ["add_action / command() sentences and command_giver are not modelled (user_parser skips sentences of destructed objects: by reading only)",
+    not_covered = ["add_action flags (V_SHORT / V_NOSPACE), function-pointer actions, action functions returning 0 (illegal_sentence_action), remove_action, notify_fail",
                    "virtual objects (master compile_object), the master / simul_efun reload path of destruct_object, shadows, swapping, sockets",
                    "catch() inside hooks (error_handler resets restrict_destruct even for caught errors)",
                    "objects(filter) with a filter that destructs objects walks next_all into obj_list_destruct (by reading; not generated)",
-                   "crash-freedom (no dereference of a released structure, termination of the super walk) is modelled but not proved",
+                   "termination of move_object's super walk (outcome `hang`) is not proved (crash freedom is: no_crash)",
+                   "the string-level top theorem judge(model trace) = [] is not proved; its semantic clauses are (reachable_inv, no_crash, init_only_adjacent, destructed_never_*)",
                    "call_out / heart_beat / input_to references to destructed objects (C10, C11)"]
 
     # ---- translator ---------------------------------------------------------
